@@ -390,7 +390,7 @@ class Evaluator:
                         if not eq:
                             break
                     return ("bool", eq if op == "Eq" else not eq)
-                if (l[0] in ("bin", "not") or r[0] in ("bin", "not")) and "cmp" in self.atoms:
+                if (l[0] in ("bin", "not", "sym") or r[0] in ("bin", "not", "sym")) and "cmp" in self.atoms:
                     got = self.atoms["cmp"]([op, l, r])
                     if got is not None:
                         return got
